@@ -245,8 +245,8 @@ Proof. exact dispatch_hashless_runs. Qed.
 
 (* ... and between the restart and that dispatch no transaction of the restarted build gives it a
    stored hash or a BUILT product ([proto_i]: completions, skip checks and redefinitions are those of
-   other steps, a completion names no product of the step, hash results never have cause SUCCEEDED;
-   delete_detached, which runs after the job loop, is excluded) *)
+   other steps, a completion names no product of the step, hash results never have cause SUCCEEDED);
+   delete_detached included: it only removes nodes, file rows and stored hashes *)
 Theorem C05_interrupted_facts_kept_until_dispatch :
   forall x s o s', Ix x s -> proto_i x s o -> step_op o s = Ok s' -> Ix x s'.
 Proof. exact interrupted_kept. Qed.
